@@ -8,7 +8,8 @@
   Props/C04DecodedPaths.lean (the shape half of `RepPath` derived
   from `convert_path_str`: for decoded sliders `PathShapeOk` is exactly `F17Free`; Props/C04DecodedPathsIeee.lean: its laws are
   theorems of the IEEE instances); on the IEEE instances also Props/C04DecodedObjectsIeee.lean and
-  Props/C04DecodedObjectsIeee2.lean. All in namespace `Rosu.C04`.
+  Props/C04DecodedObjectsIeee2.lean; Props/C04DecodedTimingEvents.lean (`CollectedTimesInLimit` reduced to the objects' computed
+  end times / slider tails and span ends, all modes, IEEE doubles). All in namespace `Rosu.C04`.
 -/
 import RosuModel.Props.C04Slider
 import RosuModel.Props.C04Timing
@@ -26,3 +27,4 @@ import RosuModel.Props.C04DecodedTimingIeee
 import RosuModel.Props.C04DecodedPaths
 import RosuModel.Props.C04DecodedPathsIeee
 import RosuModel.Props.C04DecodedObjectsIeee2
+import RosuModel.Props.C04DecodedTimingEvents
